@@ -5,6 +5,21 @@ pub assume_specification<T: Clone> [<[T]>::fill] (s: &mut [T], v: T)
 
 pub enum SeekFrom { Start(u64), End(i64), Current(i64) }
 pub struct IoError { pub kind: u8 }
+pub enum Error { Invalid, Read, Write, Internal, NotImplemented }
+pub type EResult<T> = std::result::Result<T, Error>;
+impl Error { pub fn invalid<T>(desc: &str) -> (r: EResult<T>) ensures r is Err { Err(Error::Invalid) } }
+pub trait Converter<T>: Sized {
+    spec fn ok_spec(&self) -> bool;
+    spec fn val_spec(&self) -> T;
+    fn read_err(self, context: &str) -> (r: EResult<T>) ensures (r is Ok) == self.ok_spec(), r is Ok ==> r->Ok_0 == self.val_spec();
+    fn write_err(self, context: &str) -> (r: EResult<T>) ensures (r is Ok) == self.ok_spec(), r is Ok ==> r->Ok_0 == self.val_spec();
+}
+impl<T, E> Converter<T> for std::result::Result<T, E> {
+    open spec fn ok_spec(&self) -> bool { self is Ok }
+    open spec fn val_spec(&self) -> T { self->Ok_0 }
+    fn read_err(self, context: &str) -> (r: EResult<T>) { match self { Ok(v) => Ok(v), Err(_) => Err(Error::Read) } }
+    fn write_err(self, context: &str) -> (r: EResult<T>) { match self { Ok(v) => Ok(v), Err(_) => Err(Error::Write) } }
+}
 
 // ---------------- device model (environment assumption) ----------------
 pub struct Dev { pub data: Vec<u8>, pub pos: u64 }
@@ -165,6 +180,9 @@ impl PagedWriter {
         ensures match r {
             Ok(n) => final(self).wf()
                 && n == (if buf@.len() <= 1020 - old(self).offset { buf@.len() as int } else { 1020 - old(self).offset })
+                && final(self).dl() <= old(self).dl() + 1024
+                && (old(self).offset + n < 1020 ==> final(self).dl() == old(self).dl() && final(self).offset == old(self).offset + n)
+                && (old(self).offset + n == 1020 ==> final(self).offset == 0)
                 && final(self).cursor() == old(self).cursor() + n
                 && final(self).stream().len() >= old(self).stream().len()
                 && (forall|i: int| 0 <= i < final(self).stream().len() ==> #[trigger] final(self).stream()[i] ==
@@ -228,6 +246,66 @@ impl PagedWriter {
             }
         }
         Ok(writeable_bytes)
+    }
+
+    /// std::io::Write::write_all (default method), re-stated over the inherent `write`
+    fn write_all(&mut self, buf: &[u8]) -> (r: Result<(), IoError>)
+        requires old(self).wf(), old(self).dl() + 1024 * ((old(self).offset + buf@.len()) / 1020 + 3) < u64::MAX,
+        ensures match r {
+            Ok(_) => final(self).wf() && final(self).cursor() == old(self).cursor() + buf@.len()
+                && final(self).stream().len() >= old(self).stream().len()
+                && (forall|i: int| 0 <= i < final(self).stream().len() ==> #[trigger] final(self).stream()[i] ==
+                        (if old(self).cursor() <= i < old(self).cursor() + buf@.len() { buf@[i - old(self).cursor()] }
+                         else if i < old(self).stream().len() { old(self).stream()[i] } else { 0u8 })),
+            Err(_) => true },
+    {
+        let mut done: usize = 0;
+        while done < buf.len()
+            invariant
+                done <= buf@.len(), self.wf(), self.dl() + 1024 * ((self.offset + (buf@.len() - done)) / 1020 + 3) < u64::MAX,
+                self.cursor() == old(self).cursor() + done,
+                self.stream().len() >= old(self).stream().len(),
+                forall|i: int| 0 <= i < self.stream().len() ==> #[trigger] self.stream()[i] ==
+                        (if old(self).cursor() <= i < old(self).cursor() + done { buf@[i - old(self).cursor()] }
+                         else if i < old(self).stream().len() { old(self).stream()[i] } else { 0u8 }),
+            decreases buf@.len() - done
+        {
+            let ghost before = *self;
+            let n = self.write(vstd::slice::slice_subrange(buf, done, buf.len()))?;
+            if n == 0 { return Err(IoError { kind: 9 }); }
+            done = done + n;
+        }
+        Ok(())
+    }
+
+    /// Get the current physical offset in the file.
+    pub fn physical_position(&mut self) -> (r: EResult<u64>)
+        requires old(self).wf(), old(self).dl() + 2048 < u64::MAX,
+        ensures match r { Ok(p) => final(self).wf() && final(self).stream() == old(self).stream() && final(self).cursor() == old(self).cursor()
+                            && p == 1024 * old(self).p() + old(self).offset, Err(_) => true },
+    {
+        let pos = self
+            .writer
+            .stream_position()
+            .read_err("Failed to get position from writer")?;
+        Ok(pos + self.offset as u64)
+    }
+
+    /// Write some zeros to next 4-byte-aligned offset, if needed.
+    pub fn align(&mut self) -> (r: EResult<()>)
+        requires old(self).wf(), old(self).dl() + 4096 < u64::MAX,
+        ensures match r { Ok(_) => final(self).wf() && final(self).cursor() % 4 == 0 && final(self).cursor() - old(self).cursor() < 4
+                && final(self).cursor() >= old(self).cursor()
+                && (forall|i: int| 0 <= i < old(self).cursor() && i < final(self).stream().len() ==> #[trigger] final(self).stream()[i] == old(self).stream()[i]),
+            Err(_) => true },
+    {
+        let zeros = [0u8; 4];
+        let mod_offset = self.offset % 4;
+        if mod_offset != 0 {
+            self.write_all(vstd::slice::slice_subrange(&zeros, mod_offset, 4))
+                .write_err("Failed to write zero bytes for alignment")?;
+        }
+        Ok(())
     }
 
     fn flush(&mut self) -> (r: Result<(), IoError>)
